@@ -49,6 +49,10 @@ def ensure_deps() -> bool:
     marker = DEPS / "icontract"
     if not marker.exists():
         DEPS.mkdir(exist_ok=True)
+        import fcntl
+        lock = open(DEPS / ".lock", "w")
+        fcntl.flock(lock, fcntl.LOCK_EX)   # shards of one check may get here together on a fresh restore
+    if not marker.exists():
         cmd = [
             sys.executable, "-m", "pip", "install", "--quiet", "--no-index",
             "--find-links", str(WHEELS), "--target", str(DEPS),
